@@ -204,6 +204,39 @@ def unit_precision(ctx):
         ctx.report('correspondence', 'fraction-path', 'recognize_number(三分之一) under ambient precision 9/15/28: '
                    'implementation %r, model (%s path) %r' % (got, path, want),
                    failing_input={'query': '三分之一', 'culture': 'zh-cn', 'implementation': got, 'model': want})
+    # RTV.Conc.runUnder / parseVia (the wrappers the purity theorems are stated with) against the REAL `@precision(prec=15)`
+    # decorator of recognizers_number.number.utilities around a probe, and an undecorated probe, under three ambient
+    # precisions; RTV.Conc.threadPrec against real threads: the importing (main) thread of a fresh interpreter and a thread
+    # started afterwards (audit item 35: these model functions had no correspondence op)
+    from recognizers_number.number import utilities as NU
+    common.assert_tree_modules(NU)
+    probe_d = NU.precision(prec=15)(lambda: decimal.getcontext().prec)
+    probe_u = lambda: decimal.getcontext().prec
+    lines, impl = [], []
+    for p in (9, 15, 28):
+        with decimal.localcontext() as c:
+            c.prec = p
+            for op in ('frununder', 'fparsevia'):
+                lines += ['%s\td\t%d' % (op, p), '%s\tu\t%d' % (op, p)]
+                impl += [str(probe_d()), str(probe_u())]
+    code = ('import sys, decimal, threading\n'
+            'import recognizers_number, recognizers_number.number.parsers, recognizers_number.number.cjk_parsers\n'
+            'out = []\n'
+            't = threading.Thread(target=lambda: out.append(decimal.getcontext().prec)); t.start(); t.join()\n'
+            'print(decimal.getcontext().prec, out[0])\n')
+    rc, txt = common.run(['/venv/bin/python', '-c', code], env=common.child_env(), timeout=600)
+    try:
+        main_prec, thread_prec = txt.strip().splitlines()[-1].split()
+    except Exception:
+        raise common.InfraError('thread-precision probe failed: rc=%s %s' % (rc, txt[-500:]))
+    lines += ['fthreadprec\t1', 'fthreadprec\t0']
+    impl += [main_prec, thread_prec]
+    model = common.driver(lines)
+    ctx.count('precision_wrappers_and_threads', len(lines))
+    for l, a, b in zip(lines, impl, model):
+        if a != b:
+            ctx.report('correspondence', 'precision-' + l.split('\t')[0], '%s: implementation %s, model %s' % (
+                l.replace('\t', ' '), a, b), failing_input={'op': l, 'implementation': a, 'model': b})
     return dependent
 
 
